@@ -4,7 +4,7 @@ FRAGMENT = {
  'world': 'c20',
  'variant': 'race',
  'level': 'exploration',
- 'quick': {'runs': 12000, 'budget_s': 30, 'workers': 16},
+ 'quick': {'runs': 25000, 'budget_s': 30, 'workers': 16},
  'thorough': {'runs': 600000, 'budget_s': 900, 'workers': 16, 'det_sample': 100},
  'level_text': 'seeded exploration of thread schedules of the documented cross-thread uses in the race build (library compiled with '
                '-fsanitize-coverage=trace-loads,trace-stores: every load / store of the code under test and every simulated mutex operation is a '
